@@ -204,12 +204,7 @@ Definition C07_writes_conform_sparse_statement : Prop := forall sp m w n ps sv,
   sv_build_set sp m w n ps = Ok (inl sv) ->
   F.doc_valid_sparse (sv_serialize sv) = true /\ F.doc_content_sparse (sv_serialize sv) = Some (n, ps).
 (* RLVector: proved, see C07_writes_conform_rl above *)
-Definition C07_writes_conform_wmcore_statement : Prop := forall sp m V c,
-  Forall (fun x => x < 2 ^ 64) V -> wm_core_from sp m V = Ok c ->
-  F.doc_valid_wmcore (wc_serialize c) = true /\ F.doc_content_wmcore (wc_serialize c) = Some (wc_width c, V).
-Definition C07_writes_conform_wm_statement : Prop := forall sp m V w,
-  Forall (fun x => x < 2 ^ 64) V -> wm_from sp m V = Ok w ->
-  F.doc_valid_wm (wm_serialize w) = true /\ F.doc_content_wm (wm_serialize w) = Some (wm_width w, V).
+(* WMCore / WaveletMatrix: proved, see C07_writes_conform_wmcore / C07_writes_conform_wm in Props/C07_wm.v *)
 
 (* the read direction over the models of the loaders (DESIGN section 8): for the core types it is C06's
    `dec (enc x ++ rest) = (x, rest)` composed with (b); for files with other admissible choices it is stated here *)
